@@ -89,6 +89,7 @@ const (
 	c17OpPhase    = 50 * time.Millisecond
 	c17FetchPhase = 20 * time.Millisecond
 	c17PeekPhase  = 10 * time.Millisecond
+	c17InterPhase = 30 * time.Millisecond
 	c17KeyPhase   = 2 * time.Millisecond
 	c17CachePhase = 1 * time.Millisecond
 	c17LockHeld   = "<cache lock held>"
@@ -112,6 +113,17 @@ type c17Taker struct {
 	// today because Take holds no lock while fetch runs. Never the key being
 	// taken (a nested Take of it would wait for itself).
 	Re string `json:"re,omitempty"`
+}
+
+// c17Inter is a call made by ANOTHER goroutine while a take group is running:
+// Set (cache default expiry) / Del / Get of a key, typically the key whose fetch
+// is in flight. It happens At*100 ms + 30 ms + 2 ms * key + 1 ms * cache after the
+// group starts, an instant no arrival, fetch completion, snapshot or tick shares.
+type c17Inter struct {
+	C   int    `json:"c,omitempty"`
+	Key int    `json:"key"`
+	At  int    `json:"at"`
+	K   string `json:"k"` // set del get
 }
 
 // c17Panic is one of the values a panicking fetch panics with.
@@ -196,6 +208,7 @@ type c17Op struct {
 	N   int        `json:"n,omitempty"`   // adv: ticks; churn: iterations
 	M   int        `json:"m,omitempty"`   // churn: 0 = Set+Del cycling over 3 extra keys, 1 = Set of N distinct extra keys (evicted by the limit)
 	T   []c17Taker `json:"t,omitempty"`   // take: the callers
+	X   []c17Inter `json:"x,omitempty"`   // take: Set/Del/Get by other goroutines while the group runs
 }
 
 // c17Cfg configures the optional second cache of a case. Both caches live in
@@ -468,6 +481,7 @@ const (
 	c17EvFetchEnd
 	c17EvReturn
 	c17EvPeek
+	c17EvInter
 )
 
 type c17Ev struct {
@@ -499,11 +513,14 @@ func c17Lat(tk c17Taker) time.Duration {
 // are only that all of them return when the execution ends, that nothing is
 // cached, and that the execution is over: a later caller of the key is judged
 // by the normal rules (it must run a fetch of its own).
-func c17CheckGroup(ms []*c17Model, exps []int, op c17Op, nk int, vals, rvals []int, errs []error, pvals []any, log []c17Ev, what string) string {
+func c17CheckGroup(ms []*c17Model, exps []int, op c17Op, nk int, vals, rvals, xvals []int, errs []error, pvals []any, log []c17Ev, what string) string {
 	type flight struct {
 		leader  int
 		start   time.Duration
 		waiters map[int]bool
+		// interfered / setDuring: another goroutine called Set/Del/Get (Set) of the key
+		// while this execution was in flight
+		interfered, setDuring bool
 	}
 	flights := map[string]*flight{}
 	arrived := map[int]bool{}
@@ -518,9 +535,11 @@ func c17CheckGroup(ms []*c17Model, exps []int, op c17Op, nk int, vals, rvals []i
 		bi = bj
 		at := batch[0].at
 		tick := int(at / c17Tick)
-		var arr, fst, fen, ret, peeks []c17Ev
+		var arr, fst, fen, ret, peeks, inters []c17Ev
 		for _, e := range batch {
 			switch e.kind {
+			case c17EvInter:
+				inters = append(inters, e)
 			case c17EvArrive:
 				arr = append(arr, e)
 			case c17EvFetchStart:
@@ -534,6 +553,66 @@ func c17CheckGroup(ms []*c17Model, exps []int, op c17Op, nk int, vals, rvals []i
 			}
 		}
 		w := fmt.Sprintf("%s at +%v (tick %d)", what, at, tick)
+		if len(inters) > 0 {
+			// A Set / Del / Get by another goroutine while the group runs. Written from the
+			// statement: Get returns the value most recently set; a Set makes the key
+			// cached (callers arriving from now on get that value at once, without fetch
+			// and without waiting for the execution in flight); a Del makes it absent
+			// (callers arriving from now on share the execution in flight, or start one).
+			// Neither touches the execution in flight: the callers already waiting get ITS
+			// result when it completes, and a successful result is then cached - over a
+			// value set meanwhile ("giving all of them its result and caching it").
+			if len(inters) != 1 || len(batch) != 1 {
+				return w + ": harness: the instant of an interfering call is shared with other events"
+			}
+			e := inters[0]
+			x := op.X[e.who]
+			key := c17Key(x.Key)
+			m := ms[x.C]
+			for _, y := range ms {
+				y.failKey = ""
+			}
+			m.failKey = key
+			if len(ms) > 1 {
+				w += fmt.Sprintf(" cache %d", x.C)
+			}
+			during := ""
+			if fl := flights[fmt.Sprintf("cache %d %s", x.C, key)]; fl != nil {
+				during = "-during-fetch"
+				fl.interfered = true
+			}
+			m.classes["inter-"+x.K+during] = true
+			switch x.K {
+			case "set":
+				if ev := m.set(key, xvals[e.who], tick, exps[x.C]); ev != "" && during != "" {
+					m.classes["inter-set-during-fetch-evicts"] = true
+				}
+				if during != "" {
+					flights[fmt.Sprintf("cache %d %s", x.C, key)].setDuring = true
+				}
+			case "del":
+				m.drop(key)
+			case "get":
+				oe, live := m.ents[key]
+				if live && oe.free && !e.rok {
+					m.drop(key)
+					live = false
+				}
+				if live && oe.sub && !e.rok {
+					m.drop(key) // sub-interval expiry: the instant of the drop is unspecified
+					live = false
+				}
+				if live {
+					if !e.rok || !c17Same(e.rv, oe.val) {
+						return fmt.Sprintf("%s: Get(%s) by another goroutine while the take group runs returned (%#v,%v), most recently set value #%d", w, key, e.rv, e.rok, oe.val)
+					}
+					m.touch(key)
+				} else if e.rok {
+					return fmt.Sprintf("%s: Get(%s) by another goroutine while the take group runs returned (%#v,true) for an absent key", w, key, e.rv)
+				}
+			}
+			continue
+		}
 		key, fkey, ci := "", "", 0
 		for _, e := range batch {
 			if e.kind == c17EvPeek {
@@ -664,6 +743,14 @@ func c17CheckGroup(ms []*c17Model, exps []int, op c17Op, nk int, vals, rvals []i
 				m.classes["take-fetch-err"] = true
 			} else {
 				m.classes["take-fetch-ok"] = true
+				if fl.setDuring {
+					if _, still := m.ents[key]; still {
+						m.classes["take-caches-over-concurrent-set"] = true
+					}
+				}
+				if fl.interfered && len(ret) > 1 {
+					m.classes["take-waiters-across-interference"] = true
+				}
 				if ev := m.set(key, vals[fl.leader], tick, expMs); ev != "" {
 					m.classes["take-evicts"] = true
 				}
@@ -721,6 +808,9 @@ func c17CheckGroup(ms []*c17Model, exps []int, op c17Op, nk int, vals, rvals []i
 				}
 				m.touch(key)
 				m.classes["take-hit"] = true
+				if fl != nil {
+					m.classes["take-hit-while-fetch-in-flight"] = true
+				}
 			default:
 				if len(fst) != 1 {
 					return fmt.Sprintf("%s: %d of the %d callers arriving together ran fetch for the absent key, want exactly 1", w, len(fst), len(arr))
@@ -1133,6 +1223,31 @@ func c17Run1(c c17Case, classes map[string]bool, known *string) string {
 				}
 			}
 			o.T = c17NormTakers(o.T)
+			// interfering calls: one per (instant, cache, key); a Set with a sub-interval
+			// default expiry is made a Get (as for the re-entrant Set above)
+			var xs []c17Inter
+			for _, x := range o.X {
+				if x.C < 0 || x.C >= len(insts) {
+					x.C = 0
+				}
+				x.Key %= c.NK
+				if x.K == "set" && c17Sub(insts[x.C].exp) {
+					x.K = "get"
+				}
+				dup := false
+				for _, y := range xs {
+					dup = dup || (y.C == x.C && y.Key == x.Key && y.At == x.At)
+				}
+				if !dup {
+					xs = append(xs, x)
+				}
+			}
+			o.X = xs
+			xvals := make([]int, len(o.X))
+			for j := range xvals {
+				nextVal++
+				xvals[j] = nextVal
+			}
 			n := len(o.T)
 			vals := make([]int, n)
 			errs := make([]error, n)
@@ -1159,8 +1274,31 @@ func c17Run1(c c17Case, classes map[string]bool, known *string) string {
 				mu.Unlock()
 			}
 			doneCh := make(chan struct{})
-			remaining := int32(n)
+			remaining := int32(n + len(o.X))
 			span := 0
+			for j, x := range o.X {
+				j, x := j, x
+				if x.At > span {
+					span = x.At
+				}
+				go func() {
+					time.Sleep(time.Duration(x.At)*c17Grid + c17InterPhase - c17OpPhase + time.Duration(x.Key)*c17KeyPhase + time.Duration(x.C)*c17CachePhase + c17Grid)
+					cache := pick(x.C).cache
+					ev := c17Ev{kind: c17EvInter, who: j}
+					switch x.K {
+					case "set":
+						cache.Set(real[x.Key], c17Val(xvals[j]))
+					case "del":
+						cache.Del(real[x.Key])
+					case "get":
+						ev.rv, ev.rok = cache.Get(real[x.Key])
+					}
+					rec(ev)
+					if atomic.AddInt32(&remaining, -1) == 0 {
+						close(doneCh)
+					}
+				}()
+			}
 			for j, tk := range o.T {
 				j, tk := j, tk
 				if tk.At > span {
@@ -1246,7 +1384,7 @@ func c17Run1(c c17Case, classes map[string]bool, known *string) string {
 			for _, in := range insts {
 				ms, exps = append(ms, in.m), append(exps, in.exp)
 			}
-			if f := c17CheckGroup(ms, exps, o, c.NK, vals, rvals, errs, pvals, log, what); f != "" {
+			if f := c17CheckGroup(ms, exps, o, c.NK, vals, rvals, xvals, errs, pvals, log, what); f != "" {
 				return f
 			}
 			if f := check(what + " end"); f != "" {
@@ -1378,6 +1516,9 @@ func c17OpString(o c17Op) string {
 	case "churn":
 		return fmt.Sprintf("churn(c%d,n=%d,mode=%d)", o.C, o.N, o.M)
 	case "take":
+		if len(o.X) > 0 {
+			return fmt.Sprintf("take(%+v, others %+v)", o.T, o.X)
+		}
 		return fmt.Sprintf("take(%+v)", o.T)
 	}
 	return o.K
@@ -1421,7 +1562,9 @@ func c17GenExp(rt *rapid.T, label string) int {
 	case "max": // above MaxInt64/1.05 ns, up to time.Duration(math.MaxInt64) ("never"); finding expiry-jitter-overflow, fixed in 00e8b57
 		return rapid.SampledFrom([]int{c17MaxMs, 104025 * c17DayMs, int(math.MaxInt64/105*100/1000000) + 1000}).Draw(rt, label)
 	case "nonpos": // legal to pass, lifetime unspecified by the statement
-		return rapid.SampledFrom([]int{0, -1, -1000}).Draw(rt, label)
+		// math.MinInt64/1e6 ms: 1.05 * expiry leaves the Duration range downwards (the
+		// jitter clamps at MinInt64); like every expiry <= 0 run for panics / hangs only
+		return rapid.SampledFrom([]int{0, -1, -1000, math.MinInt64 / 1000000}).Draw(rt, label)
 	case "sub": // below (or just around) the wheel interval: 1 ms .. 1100 ms
 		return rapid.IntRange(1, 1100).Draw(rt, label)
 	case "long": // never ticked through: hours, days, and the multi-day values named in the follow-up
@@ -1531,6 +1674,22 @@ func c17GenRawOp(nk, nc, ka int) *rapid.Generator[c17RawOp] {
 				}
 			}
 			o.T = c17NormTakers(o.T)
+			// other goroutines calling Set / Del / Get of (mostly) the key being taken
+			// while the group runs, at the generated arrival offsets of the group and the
+			// instants between them
+			if nx := rapid.SampledFrom([]int{0, 0, 0, 1, 1, 2, 3}).Draw(rt, "nx"); nx > 0 {
+				for j := 0; j < nx; j++ {
+					x := c17Inter{Key: key, K: rapid.SampledFrom([]string{"set", "set", "del", "del", "get"}).Draw(rt, "xk")}
+					if rapid.IntRange(0, 3).Draw(rt, "x-other-key") == 0 {
+						x.Key = keyGen.Draw(rt, "xkey")
+					}
+					if nc > 1 {
+						x.C = rapid.IntRange(0, nc-1).Draw(rt, "xc")
+					}
+					x.At = rapid.SampledFrom([]int{0, 0, 1, 2, 3, 5, 9, 10, 11, 12, 20, 25, 30, 35}).Draw(rt, "xat")
+					o.X = append(o.X, x)
+				}
+			}
 		}
 		return r
 	})
@@ -1629,6 +1788,11 @@ func c17Gen(rt *rapid.T) c17Case {
 			for _, tk := range o.T {
 				if g := &gk[tk.C*c.NK+tk.Key]; !g.live {
 					*g = c17GenKey{set: now, exp: exps[tk.C], live: true}
+				}
+			}
+			for _, x := range o.X {
+				if x.K == "set" {
+					gk[x.C*c.NK+x.Key] = c17GenKey{set: now, exp: exps[x.C], live: true}
 				}
 			}
 		}
